@@ -38,6 +38,14 @@ package dissect
 //@   loop 3 invariant 0 <= j && j <= len(loweredSubstr)
 //@   loop 3 invariant forall jj in [0, j) :: afold(s[i + jj]) == loweredSubstr[jj]
 
+// Ignore-case only adds matches: where a literal d occurs in the line byte for byte, its
+// ASCII-lowered form dl (what CompileEx stores, [prefix-folded]) fold-matches at the same offset;
+// with [first] the ignore-case search therefore finds an occurrence at or before every
+// case-sensitive one. And on text that is already ASCII-lower the fold is the identity, so a fold
+// match is an exact occurrence: the result equals the case-sensitive result on lowered input.
+//@ lemma ignore-case-monotone : forall s: str :: forall d: str :: forall dl: str :: forall i: int :: len(dl) == len(d) && (forall j in [0, len(d)) :: dl[j] == afold(d[j])) && 0 <= i && i + len(d) <= len(s) && (forall j in [0, len(d)) :: s[i + j] == d[j]) ==> fold_match(s, dl, i)
+//@ lemma ignore-case-ascii : forall s: str :: forall dl: str :: forall i: int :: (forall j in [0, len(s)) :: afold(s[j]) == s[j]) && 0 <= i && i + len(dl) <= len(s) && fold_match(s, dl, i) ==> (forall j in [0, len(dl)) :: s[i + j] == dl[j])
+
 // idx_fn(f, src, of): what the index function value f returns for (src, of). Both functions ever
 // stored in Dissect.indexOf (strings.Index, indexIgnoreCase) satisfy the bounds stated here.
 //@ smt
